@@ -1,7 +1,8 @@
 (* TranslatedEq.v — the definitions regenerated from /repo's current source by tools/translate.py
    (gen/Translated.v) are equal to the hand-written model.  When the Python changes, these proofs break. *)
 From SL Require Import Tac.
-From SL Require Import PyInt KeyPattern LoopSem ScreenSem Prompt Paging gen.Translated.
+From SL Require Import PyInt KeyPattern LoopSem ScreenSem Prompt Paging ScreenOut gen.Translated.
+From RecordUpdate Require Import RecordUpdate.
 Import ListNotations.
 
 Lemma streq_single k c : t_streq k [c] = str1 c k.
@@ -42,3 +43,481 @@ Lemma prompt_keys_eq :
   t_CONTINUE_DESCRIPTION = Prompt.CONTINUE_DESCRIPTION /\ t_REFRESH_DESCRIPTION = Prompt.REFRESH_DESCRIPTION /\
   t_HELP_DESCRIPTION = Prompt.HELP_DESCRIPTION.
 Proof. repeat split; reflexivity. Qed.
+
+(* ================================================================== signals: every class, every creation site *)
+Lemma sig_render_eq src : t_sig_RenderScreenSignal src t_sig_RenderScreenSignal_default_priority = render_spec src.
+Proof. reflexivity. Qed.
+Lemma sig_close_eq scr : t_sig_CloseScreenSignal (Some scr) t_sig_CloseScreenSignal_default_priority = close_spec scr.
+Proof. reflexivity. Qed.
+Lemma sig_exception_eq : t_sig_ExceptionSignal None = exception_spec.
+Proof. reflexivity. Qed.
+Lemma sig_ready_eq src h d ok :
+  t_sig_InputReadySignal src h d t_sig_InputReadySignal_default_priority ok = ready_spec src h d ok.
+Proof. reflexivity. Qed.
+(* the model's received_spec carries the request id in sp_a (a ghost field: which reader thread); everything else *)
+Lemma sig_received_eq req d :
+  received_spec req d =
+  let t := t_sig_InputReceivedSignal None d t_sig_InputReceivedSignal_default_priority in
+  {| sp_cls := sp_cls t; sp_prio := sp_prio t; sp_src := sp_src t; sp_a := req; sp_b := sp_b t; sp_data := sp_data t |}.
+Proof. reflexivity. Qed.
+
+Lemma signal_priorities_eq :
+  t_sig_RenderScreenSignal_default_priority = sp_prio (render_spec None) /\
+  t_sig_CloseScreenSignal_default_priority = sp_prio (close_spec 0) /\
+  t_sig_InputReadySignal_default_priority = sp_prio (ready_spec None 0 [] true) /\
+  t_sig_InputReceivedSignal_default_priority = sp_prio (received_spec 0 []) /\
+  t_sh_create_signal_default_priority = sp_prio (render_spec None) /\
+  sp_prio (t_sig_ExceptionSignal None) = sp_prio exception_spec.
+Proof. repeat split; reflexivity. Qed.
+
+Lemma signal_sites_eq :
+  (forall src h d, t_req_emit_input_ready_signal src h d = ready_spec src h d true) /\
+  (forall src h, t_req_emit_failed_input_ready_signal src h = ready_spec src h [] false) /\
+  (forall req d, received_spec req d =
+     let t := t_req_run_signal d in
+     {| sp_cls := sp_cls t; sp_prio := sp_prio t; sp_src := sp_src t; sp_a := req; sp_b := sp_b t; sp_data := sp_data t |}) /\
+  (forall s, t_sh_redraw_signal s = render_spec (Some s)) /\
+  (forall s, t_sh_close_signal s = close_spec s) /\
+  t_sched_redraw_signal = render_spec None /\
+  t_sched_push_screen_modal_signal = render_spec None /\
+  t_exception_signal = exception_spec.
+Proof. repeat split; reflexivity. Qed.
+
+(* ================================================================== TicketMachine *)
+(* the Python dicts of the ticket machine are the association lists of LoopSem.tmachine (insertion order).
+   The model appends a fresh ticket and filters / maps a line; Python assigns, pops and assigns per key:
+   the two agree when ticket ids are unique within a line and below the counter, which every reachable
+   machine satisfies (tm_inv: holds initially, preserved by the three operations). *)
+Definition tm_inv (tm : tmachine) : Prop :=
+  forall line ts, In (line, ts) (tm_lines tm) ->
+                  NoDup (map fst ts) /\ Forall (fun p => fst p < tm_counter tm) ts.
+
+Lemma tm_init_eq : t_tm_init = tm_empty.
+Proof. reflexivity. Qed.
+
+Lemma tm_inv_empty : tm_inv tm_empty.
+Proof. intros line ts []. Qed.
+
+Lemma dict_get_line {V} (ls : list (nat * V)) l :
+  t_dict_get l ls = match option_map snd (find (fun p => (fst p =? l)%nat) ls) with Some v => t_ok v | None => t_raise t_KeyError end.
+Proof.
+  induction ls as [|[l0 v] r IH]; cbn [t_dict_get find fst]; [reflexivity|].
+  destruct (l0 =? l)%nat; [reflexivity|exact IH].
+Qed.
+
+Lemma dict_mem_line {V} (ls : list (nat * V)) l :
+  t_dict_mem l ls = match find (fun p => (fst p =? l)%nat) ls with Some _ => true | None => false end.
+Proof.
+  induction ls as [|[l0 v] r IH]; cbn [t_dict_mem find fst]; [reflexivity|].
+  destruct (l0 =? l)%nat; [reflexivity|exact IH].
+Qed.
+
+Lemma line_get_In ls l ts : line_get ls l = Some ts -> In (l, ts) ls.
+Proof.
+  unfold line_get. destruct (find (fun p => (fst p =? l)%nat) ls) as [[l0 t0]|] eqn:F; cbn; [|discriminate].
+  intros E; injection E as ->. apply find_some in F. destruct F as [Hin Heq]. cbn in Heq.
+  apply Nat.eqb_eq in Heq. subst l0. exact Hin.
+Qed.
+
+Lemma dict_set_line_some ls l f c ts :
+  line_get ls l = Some ts -> t_dict_set l (f ts) ls = line_update ls l f c.
+Proof.
+  unfold line_get. induction ls as [|[l0 t0] r IH]; cbn [find fst t_dict_set line_update]; [discriminate|].
+  destruct (l0 =? l)%nat eqn:E.
+  - cbn. intros H; injection H as ->. reflexivity.
+  - intros H. rewrite (IH H). reflexivity.
+Qed.
+
+Lemma dict_set_line_none ls l f :
+  line_get ls l = None -> t_dict_set l (f []) ls = line_update ls l f true.
+Proof.
+  unfold line_get. induction ls as [|[l0 t0] r IH]; cbn [find fst t_dict_set line_update]; [reflexivity|].
+  destruct (l0 =? l)%nat eqn:E; [discriminate|]. intros H. rewrite (IH H). reflexivity.
+Qed.
+
+Lemma line_update_none ls l f :
+  line_get ls l = None -> line_update ls l f false = ls.
+Proof.
+  unfold line_get. induction ls as [|[l0 t0] r IH]; cbn [find fst line_update]; [reflexivity|].
+  destruct (l0 =? l)%nat eqn:E; [discriminate|]. intros H. rewrite (IH H). reflexivity.
+Qed.
+
+(* inside one line *)
+Lemma dict_set_fresh (ts : list (nat * bool)) id b :
+  Forall (fun p => fst p < id) ts -> t_dict_set id b ts = ts ++ [(id, b)].
+Proof.
+  induction ts as [|[i x] r IH]; intros H; cbn [t_dict_set app]; [reflexivity|].
+  inversion H as [|? ? Hlt Hr]; subst. cbn in Hlt.
+  destruct (i =? id)%nat eqn:E; [apply Nat.eqb_eq in E; lia|]. rewrite (IH Hr). reflexivity.
+Qed.
+
+Lemma dict_del_filter (ts : list (nat * bool)) id :
+  NoDup (map fst ts) -> t_dict_del id ts = filter (fun p => negb (fst p =? id)%nat) ts.
+Proof.
+  induction ts as [|[i x] r IH]; intros H; cbn [t_dict_del filter fst map]; [reflexivity|].
+  inversion H as [|? ? Hni Hr]; subst.
+  destruct (i =? id)%nat eqn:E; cbn [negb].
+  - apply Nat.eqb_eq in E. subst i. symmetry.
+    rewrite (proj2 (filter_ext_in_iff _ (fun _ => true) r)).
+    + clear. induction r as [|a r IH]; cbn; [reflexivity|now rewrite IH].
+    + intros [j y] Hin. cbn. destruct (j =? id)%nat eqn:E2; [|reflexivity].
+      apply Nat.eqb_eq in E2. subst j. exfalso. apply Hni. change id with (fst (id, y)). now apply in_map.
+  - rewrite (IH Hr). reflexivity.
+Qed.
+
+Lemma dict_set_mid (d r : list (nat * bool)) k v x :
+  ~ In k (map fst d) -> t_dict_set k v (d ++ (k, x) :: r) = d ++ (k, v) :: r.
+Proof.
+  induction d as [|[i y] d' IH]; intros H; cbn [t_dict_set app].
+  - rewrite Nat.eqb_refl. reflexivity.
+  - cbn [map fst In] in H. destruct (i =? k)%nat eqn:E; [apply Nat.eqb_eq in E; tauto|].
+    rewrite IH by tauto. reflexivity.
+Qed.
+
+Lemma fold_set_true_gen (rest done : list (nat * bool)) :
+  NoDup (map fst (done ++ rest)) ->
+  fold_left (fun acc k => t_dict_set k true acc) (map fst rest) (done ++ rest) =
+  done ++ map (fun p => (fst p, true)) rest.
+Proof.
+  revert done. induction rest as [|[k x] r IH]; intros done H; cbn [map fold_left fst]; [reflexivity|].
+  rewrite dict_set_mid.
+  - change (done ++ (k, true) :: r) with (done ++ [(k, true)] ++ r). rewrite app_assoc.
+    rewrite IH.
+    + rewrite <- app_assoc. reflexivity.
+    + rewrite <- app_assoc. cbn [app]. rewrite map_app in *. cbn [map fst] in *. exact H.
+  - rewrite map_app in H. cbn [map fst] in H. apply NoDup_remove_2 in H. intros Hin. apply H. apply in_or_app. now left.
+Qed.
+
+Lemma fold_set_true (ts : list (nat * bool)) :
+  NoDup (map fst ts) ->
+  fold_left (fun acc k => t_dict_set k true acc) (t_dict_keys ts) ts = map (fun p => (fst p, true)) ts.
+Proof. intros H. exact (fold_set_true_gen ts [] H). Qed.
+
+Lemma tm_take_ticket_eq tm line :
+  tm_inv tm -> t_tm_take_ticket tm line = t_ok (take_ticket tm line).
+Proof.
+  intros Hinv. destruct tm as [ls c]. unfold t_tm_take_ticket, take_ticket. cbn [tm_lines tm_counter].
+  rewrite dict_mem_line, dict_get_line.
+  destruct (line_get ls line) as [ts|] eqn:G; unfold line_get in G;
+    destruct (find (fun p => (fst p =? line)%nat) ls) as [[l0 t0]|] eqn:F; cbn [option_map snd] in G; try discriminate.
+  - injection G as ->. cbn [negb option_map snd t_bind].
+    assert (Hl : line_get ls line = Some ts) by (unfold line_get; rewrite F; reflexivity).
+    destruct (Hinv line ts (line_get_In _ _ _ Hl)) as [_ Hlt]. cbn [tm_counter] in Hlt.
+    rewrite (dict_set_fresh ts c false Hlt).
+    rewrite (dict_set_line_some ls line (fun ts => ts ++ [(c, false)]) true ts Hl).
+    rewrite Nat.add_1_r. reflexivity.
+  - cbn [negb t_bind].
+    assert (Hl : line_get ls line = None) by (unfold line_get; rewrite F; reflexivity).
+    change (t_dict_set c false []) with ((fun ts => ts ++ [(c, false)]) (@nil (nat * bool))).
+    rewrite (dict_set_line_none ls line _ Hl).
+    rewrite Nat.add_1_r. reflexivity.
+Qed.
+
+Lemma tm_check_ticket_eq tm line id :
+  tm_inv tm ->
+  t_tm_check_ticket tm line id =
+  match check_ticket tm line id with Some r => t_ok r | None => t_raise t_KeyError end.
+Proof.
+  intros Hinv. destruct tm as [ls c]. unfold t_tm_check_ticket, check_ticket. cbn [tm_lines tm_counter].
+  rewrite dict_get_line. fold (line_get ls line).
+  destruct (line_get ls line) as [ts|] eqn:Hl; cbn [t_bind]; [|reflexivity].
+  rewrite dict_get_line.
+  destruct (find (fun p => (fst p =? id)%nat) ts) as [[i [|]]|] eqn:F; cbn [option_map snd t_bind]; try reflexivity.
+  destruct (Hinv line ts (line_get_In _ _ _ Hl)) as [Hnd _].
+  rewrite (dict_del_filter ts id Hnd).
+  rewrite (dict_set_line_some ls line (filter (fun p => negb (fst p =? id)%nat)) false ts Hl). reflexivity.
+Qed.
+
+Lemma tm_mark_line_to_go_eq tm line :
+  tm_inv tm -> t_tm_mark_line_to_go tm line = t_ok (mark_line_to_go tm line).
+Proof.
+  intros Hinv. destruct tm as [ls c]. unfold t_tm_mark_line_to_go, mark_line_to_go. cbn [tm_lines tm_counter].
+  rewrite dict_mem_line, dict_get_line. fold (line_get ls line).
+  destruct (line_get ls line) as [ts|] eqn:Hl; unfold line_get in Hl;
+    destruct (find (fun p => (fst p =? line)%nat) ls) as [[l0 t0]|] eqn:F; cbn [option_map snd] in Hl; try discriminate.
+  - injection Hl as ->. cbn [t_bind].
+    assert (Hl : line_get ls line = Some ts) by (unfold line_get; rewrite F; reflexivity).
+    destruct (Hinv line ts (line_get_In _ _ _ Hl)) as [Hnd _].
+    rewrite (fold_set_true ts Hnd).
+    rewrite (dict_set_line_some ls line (map (fun p => (fst p, true))) false ts Hl). reflexivity.
+  - cbn [t_bind].
+    assert (Hl' : line_get ls line = None) by (unfold line_get; rewrite F; reflexivity).
+    unfold set. cbn. rewrite (line_update_none ls line _ Hl'). reflexivity.
+Qed.
+
+(* tm_inv is an invariant of the model's ticket machine *)
+Lemma line_update_In ls line f cr l ts' :
+  In (l, ts') (line_update ls line f cr) ->
+  In (l, ts') ls \/ (exists ts, In (l, ts) ls /\ ts' = f ts) \/ ts' = f [].
+Proof.
+  induction ls as [|[l0 t0] r IH]; cbn [line_update].
+  - destruct cr; cbn; [|tauto]. intros [E|[]]. injection E as <- <-. right; right; reflexivity.
+  - destruct (l0 =? line)%nat.
+    + cbn [In]. intros [E|H].
+      * injection E as <- <-. right; left. exists t0. split; [now left|reflexivity].
+      * left. now right.
+    + cbn [In]. intros [E|H]; [left; now left|].
+      destruct (IH H) as [H1|[[ts [H1 H2]]|H1]]; [left; now right| |right; right; exact H1].
+      right; left. exists ts. split; [now right|exact H2].
+Qed.
+
+Lemma inv_line_step (P Q : list (nat * bool) -> Prop) ls line f cr :
+  (forall l ts, In (l, ts) ls -> P ts) ->
+  (forall ts, P ts -> Q ts) -> (forall ts, P ts -> Q (f ts)) -> Q (f []) ->
+  forall l ts, In (l, ts) (line_update ls line f cr) -> Q ts.
+Proof.
+  intros HP HPQ Hf H0 l ts Hin.
+  destruct (line_update_In _ _ _ _ _ _ Hin) as [H|[[t0 [H1 H2]]|H2]]; subst; [apply HPQ; eauto|apply Hf; eauto|exact H0].
+Qed.
+
+Lemma NoDup_snoc (l : list nat) c : NoDup l -> ~ In c l -> NoDup (l ++ [c]).
+Proof.
+  induction l as [|a r IH]; intros Hnd Hni; cbn [app]; [constructor; [intros []|constructor]|].
+  inversion Hnd as [|? ? Ha Hr]; subst. constructor.
+  - intros Hin. apply in_app_or in Hin. destruct Hin as [Hin|[E|[]]]; [tauto|]. subst. apply Hni. now left.
+  - apply IH; [exact Hr|]. intros Hin. apply Hni. now right.
+Qed.
+
+Lemma tm_inv_take tm line : tm_inv tm -> tm_inv (snd (take_ticket tm line)).
+Proof.
+  intros Hinv. destruct tm as [ls c]. unfold take_ticket, set. cbn. unfold tm_inv. cbn [tm_lines tm_counter].
+  apply (inv_line_step (fun ts => NoDup (map fst ts) /\ Forall (fun p => fst p < c) ts)); [exact Hinv| | |].
+  - intros ts [Hnd Hlt]. split; [exact Hnd|]. eapply Forall_impl; [|exact Hlt]. cbn. intros; lia.
+  - intros ts [Hnd Hlt]. split.
+    + rewrite map_app. cbn [map fst]. apply NoDup_snoc; [exact Hnd|].
+      intros Hin. apply in_map_iff in Hin. destruct Hin as [p [Hp Hin]].
+      rewrite Forall_forall in Hlt. specialize (Hlt p Hin). lia.
+    + apply Forall_app. split; [eapply Forall_impl; [|exact Hlt]; cbn; intros; lia|].
+      constructor; [cbn; lia|constructor].
+  - split; [cbn; constructor; [intros []|constructor]|constructor; [cbn; lia|constructor]].
+Qed.
+
+Lemma tm_inv_mark tm line : tm_inv tm -> tm_inv (mark_line_to_go tm line).
+Proof.
+  intros Hinv. destruct tm as [ls c]. unfold mark_line_to_go, set. cbn. unfold tm_inv. cbn [tm_lines tm_counter].
+  apply (inv_line_step (fun ts => NoDup (map fst ts) /\ Forall (fun p => fst p < c) ts)); [exact Hinv|tauto| |].
+  - intros ts [Hnd Hlt]. split.
+    + rewrite map_map. cbn [fst]. exact Hnd.
+    + rewrite Forall_map. cbn [fst]. exact Hlt.
+  - split; constructor.
+Qed.
+
+Lemma tm_inv_check tm line id b tm' : tm_inv tm -> check_ticket tm line id = Some (b, tm') -> tm_inv tm'.
+Proof.
+  intros Hinv. destruct tm as [ls c]. unfold check_ticket. cbn [tm_lines].
+  destruct (line_get ls line) as [ts|]; [|discriminate].
+  destruct (find (fun p => (fst p =? id)%nat) ts) as [[i [|]]|]; [| |discriminate]; intros E; injection E as <- <-; [|exact Hinv].
+  unfold set. cbn. unfold tm_inv. cbn [tm_lines tm_counter].
+  apply (inv_line_step (fun ts => NoDup (map fst ts) /\ Forall (fun p => fst p < c) ts)); [exact Hinv|tauto| |].
+  - intros t0 [Hnd Hlt]. split.
+    + clear Hlt. induction t0 as [|[j y] r IH]; cbn [filter map fst]; [constructor|].
+      inversion Hnd as [|? ? Hni Hr]; subst.
+      destruct (negb (j =? id)%nat); [|exact (IH Hr)]. cbn [map fst]. constructor; [|exact (IH Hr)].
+      intros Hin. apply Hni. apply in_map_iff in Hin. destruct Hin as [p [Hp Hin]]. apply filter_In in Hin.
+      apply in_map_iff. exists p. tauto.
+    + rewrite Forall_forall in *. intros p Hp. apply filter_In in Hp. apply Hlt. tauto.
+  - split; constructor.
+Qed.
+
+(* ================================================================== ScreenStack / ScreenData / _get_last_screen *)
+(* Python keeps the stack bottom first (list.append pushes, list.pop() pops the end); ScreenSem.st_stack is
+   TOP FIRST: the representation function is [rev]. *)
+Lemma ss_init_eq : t_ss_init = rev [].
+Proof. reflexivity. Qed.
+Lemma ss_empty_eq st : t_ss_empty (rev st) = t_ok (match st with [] => true | _ :: _ => false end).
+Proof.
+  unfold t_ss_empty. destruct st as [|d r]; [reflexivity|]. cbn [rev].
+  destruct (rev r ++ [d]) eqn:E; [apply app_eq_nil in E; destruct E; discriminate|reflexivity].
+Qed.
+Lemma ss_size_eq st : t_ss_size (rev st) = t_ok (length st).
+Proof. unfold t_ss_size. now rewrite rev_length. Qed.
+Lemma ss_append_eq st d : t_ss_append (rev st) d = t_ok (rev (d :: st)).
+Proof. reflexivity. Qed.
+Lemma ss_add_first_eq st d : t_ss_add_first (rev st) d = t_ok (rev (st ++ [d])).
+Proof. unfold t_ss_add_first, t_list_insert. cbn [firstn skipn app]. now rewrite rev_app_distr. Qed.
+Lemma ss_pop_eq st :
+  t_ss_pop (rev st) t_ss_pop_default_remove =
+  match st with [] => t_raise t_ScreenStackEmptyException | top :: r => t_ok (top, rev r) end.
+Proof.
+  unfold t_ss_pop, t_ss_pop_default_remove, t_list_pop_last. rewrite rev_involutive.
+  destruct st as [|top r]; reflexivity.
+Qed.
+Lemma ss_peek_eq st :
+  t_ss_pop (rev st) false =
+  match st with [] => t_raise t_ScreenStackEmptyException | top :: _ => t_ok (top, rev st) end.
+Proof.
+  unfold t_ss_pop, t_list_last. rewrite rev_involutive. destruct st as [|top r]; reflexivity.
+Qed.
+(* ScreenScheduler._get_last_screen = ScreenSem.with_top: ExitMainLoop on the empty stack, else the top, stack unchanged *)
+Lemma get_last_screen_eq st :
+  t_sched_get_last_screen (rev st) =
+  match st with [] => t_raise t_ExitMainLoop | top :: _ => t_ok (top, rev st) end.
+Proof.
+  unfold t_sched_get_last_screen. rewrite ss_empty_eq. cbn [t_bind].
+  destruct st as [|top r]; [reflexivity|]. rewrite ss_peek_eq. reflexivity.
+Qed.
+Lemma screen_data_eq :
+  (forall id s a m, t_ScreenData id s a m = {| sd_id := id; sd_scr := s; sd_args := a; sd_modal := m |}) /\
+  (forall id s a, t_sched_schedule_screen_data id s a = {| sd_id := id; sd_scr := s; sd_args := a; sd_modal := false |}) /\
+  (forall id s a, t_sched_push_screen_data id s a = {| sd_id := id; sd_scr := s; sd_args := a; sd_modal := false |}) /\
+  (forall id s a, t_sched_push_screen_modal_data id s a = {| sd_id := id; sd_scr := s; sd_args := a; sd_modal := true |}) /\
+  t_ScreenData_default_args = 0.
+Proof. repeat split; reflexivity. Qed.
+(* which end of the stack schedule / push / push_modal use (ScreenSem.do_scmd: SSchedule appends at the bottom,
+   SPush / SPushModal cons on top) *)
+Lemma sched_stack_ops_eq st d :
+  t_sched_schedule_screen_stack (rev st) d = t_ok (rev (st ++ [d])) /\
+  t_sched_push_screen_stack (rev st) d = t_ok (rev (d :: st)) /\
+  t_sched_push_screen_modal_stack (rev st) d = t_ok (rev (d :: st)).
+Proof. repeat split; try reflexivity. apply ss_add_first_eq. Qed.
+
+(* ================================================================== EventQueue / MainLoop.enqueue_signal *)
+Lemma eq_init_eq : t_eq_init = empty_queue.
+Proof. reflexivity. Qed.
+Lemma eq_empty_eq q : t_eq_empty q = t_ok (q_empty q).
+Proof. reflexivity. Qed.
+Lemma eq_put_eq q sg : t_eq_put q sg = t_ok (q_put q sg).
+Proof. reflexivity. Qed.
+Lemma eq_enqueue_eq q sg : t_eq_enqueue q sg = t_ok (q_put q sg).
+Proof. reflexivity. Qed.
+Lemma eq_contains_source_eq q src : t_eq_contains_source q src = t_ok (q_contains_source q src).
+Proof. reflexivity. Qed.
+Lemma eq_add_source_eq q o : t_eq_add_source q o = t_ok (q_add_source q o).
+Proof. unfold t_eq_add_source, q_add_source, t_set_add, t_set_mem. destruct q as [e c s]. cbn. destruct (existsb (Nat.eqb o) s); reflexivity. Qed.
+Lemma eq_enqueue_if_source_belongs_eq q sg src :
+  t_eq_enqueue_if_source_belongs q sg src =
+  t_ok (if q_contains_source q src then (true, q_put q sg) else (false, q)).
+Proof.
+  unfold t_eq_enqueue_if_source_belongs. destruct q as [e c s]. cbn [eq_entries eq_counter eq_sources].
+  rewrite eq_contains_source_eq. cbn [t_bind].
+  destruct (q_contains_source _ src); reflexivity.
+Qed.
+
+(* EventQueue.get / get_top_event_if_priority against LoopSem.q_pop and the inline code of CProcIter
+   (an entry of another priority goes back with q_put_entry) *)
+Lemma eq_get_eq q :
+  t_eq_get q = match q_pop q with None => t_raise t_Blocked | Some ((_, _, sg), q') => t_ok (sg, q') end.
+Proof.
+  unfold t_eq_get, q_pop, t_pq_get. destruct q as [[|e r] c s]; cbn [eq_entries eq_counter eq_sources]; [reflexivity|].
+  cbn [t_bind fst snd]. destruct (min_entry e r) as [[p cnt] sg]. reflexivity.
+Qed.
+Lemma eq_get_top_event_if_priority_eq q prio :
+  t_eq_get_top_event_if_priority q prio =
+  match q_pop q with
+  | None => t_raise t_Blocked
+  | Some ((p, cnt, sg), q') =>
+    if (p =? prio)%Z then t_ok (Some sg, q') else t_ok (None, q_put_entry q' (p, cnt, sg))
+  end.
+Proof.
+  unfold t_eq_get_top_event_if_priority, q_pop, t_pq_get. destruct q as [[|e r] c s]; cbn [eq_entries eq_counter eq_sources]; [reflexivity|].
+  cbn [t_bind fst snd]. destruct (min_entry e r) as [[p cnt] sg]. cbn [fst snd].
+  destruct (p =? prio)%Z; reflexivity.
+Qed.
+
+Lemma set_nth_same {A} (l : list A) n d : set_nth l n (nth n l d) = l.
+Proof. revert n. induction l as [|a r IH]; intros [|n]; cbn; try reflexivity. now rewrite IH. Qed.
+
+Section Routing.
+  Context {U : Type}.
+  (* for queue in reversed(self._event_queues): if queue.enqueue_if_source_belongs(signal, signal.source): return *)
+  Lemma ml_enqueue_loop_eq (s : lstate U) l sg :
+    t_ml_enqueue_loop (qstore s) l sg =
+    t_ok (match route s l (sg_src sg) with
+          | Some q => (true, set_nth (qstore s) q (q_put (get_q s q) sg))
+          | None => (false, qstore s)
+          end).
+  Proof.
+    induction l as [|q r IH]; cbn [t_ml_enqueue_loop route]; [reflexivity|].
+    rewrite eq_enqueue_if_source_belongs_eq. cbn [t_bind]. unfold get_q at 1.
+    destruct (q_contains_source (nth q (qstore s) empty_queue) (sg_src sg)); cbn [fst snd].
+    - reflexivity.
+    - rewrite set_nth_same. exact IH.
+  Qed.
+
+  (* MainLoop.enqueue_signal leaves the queues exactly as LoopSem.do_enqueue does *)
+  Lemma ml_enqueue_signal_eq (s : lstate U) sg :
+    t_ml_enqueue_signal (force_quit s) (qstore s) (levels s) (active s) sg = t_ok (qstore (do_enqueue s sg)).
+  Proof.
+    unfold t_ml_enqueue_signal, do_enqueue. destruct (force_quit s); [reflexivity|].
+    rewrite ml_enqueue_loop_eq. cbn [t_bind].
+    destruct (route s (rev (levels s)) (sg_src sg)) as [q|]; cbn [fst snd]; [reflexivity|].
+    rewrite eq_enqueue_eq. reflexivity.
+  Qed.
+End Routing.
+
+(* ================================================================== InputManager.process_input: the error counter *)
+(* the model's update of ss_err in ScreenSem.process_input, and the arguments of process_input_result *)
+Lemma error_counter_update_eq act (s : scrst) :
+  match act with AError => s <| ss_err := S (ss_err s) |> | _ => s <| ss_err := 0 |> end =
+  s <| ss_err := t_error_counter_update act (ss_err s) |>.
+Proof. unfold t_error_counter_update. destruct act; cbn [t_was_successful]; try reflexivity. now rewrite Nat.add_1_r. Qed.
+Lemma process_input_after_eq act c :
+  t_process_input_after act c =
+  let c' := match act with AError => S c | _ => 0 end in (c', (act, (Nat.modulo c' 5 =? 0)%nat)).
+Proof.
+  unfold t_process_input_after, t_error_counter_update.
+  destruct act; cbn [t_was_successful]; try reflexivity. now rewrite Nat.add_1_r.
+Qed.
+Lemma is_input_expected_eq none c :
+  t_is_input_expected none c = if none then (false, 0) else (true, c).
+Proof. reflexivity. Qed.
+
+(* ================================================================== ScreenScheduler.process_input_result *)
+Lemma process_input_result_eq spec act sr : t_process_input_result spec act sr = process_input_result spec act sr.
+Proof. destruct act; reflexivity. Qed.
+
+(* ================================================================== Prompt: option methods and __str__ *)
+Lemma prompt_init_eq m : t_prompt_init m = t_ok (Prompt.new_prompt m).
+Proof. reflexivity. Qed.
+Lemma prompt_defaults_eq :
+  t_prompt_init_default_message = Some Prompt.DEFAULT_MESSAGE /\
+  t_prompt_add_refresh_option_default_description = Prompt.REFRESH_DESCRIPTION /\
+  t_prompt_add_continue_option_default_description = Prompt.CONTINUE_DESCRIPTION /\
+  t_prompt_add_quit_option_default_description = Prompt.QUIT_DESCRIPTION /\
+  t_prompt_add_help_option_default_description = Prompt.HELP_DESCRIPTION.
+Proof. repeat split; reflexivity. Qed.
+Lemma prompt_set_message_eq p m : t_prompt_set_message p m = t_ok (Prompt.set_message p m).
+Proof. reflexivity. Qed.
+Lemma prompt_add_option_eq p k d : t_prompt_add_option p k d = t_ok (Prompt.add_option p k d).
+Proof. reflexivity. Qed.
+Lemma prompt_update_option_eq p k d : t_prompt_update_option p k d = t_ok (Prompt.update_option p k d).
+Proof. reflexivity. Qed.
+Lemma prompt_add_special_eq p d :
+  t_prompt_add_refresh_option p d = t_ok (Prompt.add_refresh_option p d) /\
+  t_prompt_add_continue_option p d = t_ok (Prompt.add_continue_option p d) /\
+  t_prompt_add_quit_option p d = t_ok (Prompt.add_quit_option p d) /\
+  t_prompt_add_help_option p d = t_ok (Prompt.add_help_option p d).
+Proof.
+  destruct p as [m o].
+  unfold t_prompt_add_refresh_option, t_prompt_add_continue_option, t_prompt_add_quit_option, t_prompt_add_help_option,
+    Prompt.add_refresh_option, Prompt.add_continue_option, Prompt.add_quit_option, Prompt.add_help_option, Prompt.add_special.
+  cbn [Prompt.p_message Prompt.p_options].
+  change t_REFRESH with Prompt.REFRESH. change t_CONTINUE with Prompt.CONTINUE.
+  change t_QUIT with Prompt.QUIT. change t_HELP with Prompt.HELP.
+  repeat split.
+  - destruct (Prompt.dict_mem o Prompt.REFRESH); reflexivity.
+  - destruct (Prompt.dict_mem o Prompt.CONTINUE); reflexivity.
+  - destruct (Prompt.dict_mem o Prompt.QUIT); reflexivity.
+  - destruct (Prompt.dict_mem o Prompt.HELP); reflexivity.
+Qed.
+(* remove_option returns options.pop(key, None): the old description or None *)
+Lemma prompt_remove_option_eq p k :
+  t_prompt_remove_option p k = t_ok (Prompt.dict_get (Prompt.p_options p) k, Prompt.remove_option p k).
+Proof. reflexivity. Qed.
+Lemma prompt_str_eq p : t_prompt_str p = Prompt.prompt_str p.
+Proof.
+  destruct p as [[[|c r]|] [|o os]]; reflexivity.
+Qed.
+
+(* ================================================================== what a draw prints around the widget *)
+Lemma concat_repeat_single {A} (c : A) n : List.concat (List.repeat [c] n) = List.repeat c n.
+Proof. induction n as [|n IH]; cbn; [reflexivity|now rewrite IH]. Qed.
+Lemma spacer_eq w : t_spacer w = ScreenOut.spacer w.
+Proof.
+  unfold t_spacer, ScreenOut.spacer, t_list_mul, t_str_mul, ScreenOut.rule. cbn [repeat concat app].
+  unfold PyInt.str. rewrite (concat_repeat_single 61%N). cbn [Prompt.join TextWrap.join_nl]. reflexivity.
+Qed.
+Lemma continue_message_eq : t_continue_message = ScreenOut.continue_message /\ t_ENTER = ScreenOut.ENTER.
+Proof. split; reflexivity. Qed.
+Lemma prompt_height_eq : t_prompt_height = 2%Z.
+Proof. reflexivity. Qed.
